@@ -368,6 +368,10 @@ def charref_start_states_rule(ctx, rule):
 
 
 def run(ctx):
+    ctx.rule("R14.10", "end of input inside a character reference resolves every state as the standard does (a name being matched is looked up, not handed back)")
+    from . import tokrules as _tr10
+    for _w in ("html", "xml"):
+        ctx.guard("R14.10", "charref-eof/" + _w, lambda _w=_w: _tr10.charref_eof_resolution(ctx, "R14.10", _w))
     ctx.rule("R14.8", "character references are started only in the Data, RCDATA and attribute value states, with that state current")
     ctx.guard("R14.8", "start-states", lambda: charref_start_states_rule(ctx, "R14.8"))
     ctx.rule("R14.7", "the legacy attribute exception is enabled in all three attribute value states and nowhere else")
